@@ -176,7 +176,10 @@ def explore_envvardict(depth, seed):
 
 PROJECT = {
     'build.bfg': "opt = argv.opt\n"
-                 "exe = executable('prog', ['main.c'])\n"
+                 # an include directory that is on the compiler's default search list only because of
+                 # a variable of the configure-time environment (C_INCLUDE_PATH)
+                 "inc = header_directory(Path(env.variables['SYSINC_DIR'], Root.absolute))\n"
+                 "exe = executable('prog', ['main.c'], includes=[inc])\n"
                  "install(exe)\n"
                  "command('show', cmd=['echo', opt or 'none'])\n",
     'options.bfg': "argument('opt', default='dflt')\n",
@@ -188,7 +191,7 @@ PROJECT = {
 
 CONFIG_VARS = ['CC', 'CXX', 'CFLAGS', 'CXXFLAGS', 'CPPFLAGS', 'LDFLAGS', 'LDLIBS', 'AR', 'ARFLAGS',
                'PATH', 'DESTDIR', 'BFG9000', 'DEPFIXER', 'PKG_CONFIG', 'PKG_CONFIG_PATH',
-               'LIBRARY_PATH', 'CPATH', 'PLATFORM', 'UNRELATED']
+               'LIBRARY_PATH', 'CPATH', 'PLATFORM', 'UNRELATED', 'C_INCLUDE_PATH']
 
 
 def make_project(root):
@@ -258,7 +261,7 @@ def configure_with(root, cfg, stubbin, envextra, bld=None):
 
 E_VARS = {'CFLAGS': '-DE1 "-DQ=a b"', 'CPPFLAGS': '-DPP', 'LDFLAGS': '-Wl,-e1', 'LDLIBS': '-lm',
           'TCVAR': 'orig', 'EMPTY': '', 'EQ': 'a=b=c', 'UNI': 'é日', 'UNRELATED': 'u1',
-          'DESTDIR': '/dest dir'}
+          'DESTDIR': '/dest dir', 'SYSINC_DIR': '/opt/verif-sysinc', 'C_INCLUDE_PATH': '/opt/verif-sysinc'}
 
 
 def _cfg_shard(arg):
